@@ -13,3 +13,15 @@ def op_part(rep, pid, tier, seed, kinds=None, label='operation table'):
         if len(samples) < 3 and n % 41 == 1: samples.append({k: v for k, v in case.items() if k != 'inputs'})
         if fail: rep.violation('op:' + name, '%s' % ('raises' if prop == 'ANY' else 'contract'), '%s (D=%d,P=%d,shapes=%s): %s' % (name, case['D'], case['P'], case['shapes'], fail), {'kind': 'op', 'property': pid, 'case': case, 'failure': fail})
     return n, len(keys), samples
+
+
+INT_SITE = 'integer-typed coefficient arrays'
+
+def integer_part(rep, pid, tier, seed, kinds):
+    """polynomials built from integer-typed coefficient arrays against the same values in floating point (opchecks.integer_typed_pass)"""
+    rng = random.Random(6500 + seed); n = 0; keys = set(); samples = []
+    for k, name, case, fail in opchecks.integer_typed_pass(rng, tier, kinds):
+        n += 1; keys.add((name, case['D'], case['P'], str(case['shapes'])))
+        if len(samples) < 2: samples.append(case)
+        if fail: rep.violation(INT_SITE, '%s:%s' % (k, name), '%s (D=%d,P=%d,shapes=%s): %s' % (case['op'], case['D'], case['P'], case['shapes'], fail), {'kind': 'integer-typed', 'property': pid, 'case': case, 'failure': fail})
+    rep.add_bounded('integer-typed coefficient arrays', n, len(keys), 'every %s operation of the table on polynomials built from integer-typed coefficient arrays (small integers, zeroth coefficient an integer of the domain of smoothness): the result must equal the result for the same values in floating point; a silent truncation and a casting error both count' % '/'.join(kinds), samples, 'D<=%d, P<=%d' % ((3, 2) if tier == 'quick' else (4, 3)))
